@@ -125,6 +125,38 @@ Fixpoint d13_scan (in_script : bool) (s : bytes) : bool :=
 
 Definition finding_D13 (template_text : bytes) : bool := d13_scan false template_text.
 
+(* ---- D41: the static text opens one of the raw-text / PLAINTEXT elements that the engine does not
+   model (it treats xmp, iframe, noembed, noframes, noscript and plaintext as ordinary elements): the
+   template may end inside such an element, and data may be placed inside one. *)
+
+Fixpoint contains_ci (p s : bytes) : bool :=
+  match s with
+  | [] => match p with [] => true | _ => false end
+  | _ :: t => prefix_ci p s || contains_ci p t
+  end.
+
+Definition untracked_rawtext_names : list bytes :=
+  [ B "xmp"; B "iframe"; B "noembed"; B "noframes"; B "noscript"; B "plaintext" ].
+
+Definition finding_D41 (template_text : bytes) : bool :=
+  existsb (fun n => contains_ci (60 :: n) template_text) untracked_rawtext_names.
+
+(* ---- D42: the static text contains a DOCTYPE declaration, which the engine passes through as text
+   without tracking it: the template may end inside the declaration and data may be placed inside it
+   (where it can change the DOCTYPE name, and nothing else). *)
+
+Definition finding_D42 (template_text : bytes) : bool := contains_ci (B "<!doctype") template_text.
+
+(* equality of skeletons up to the names of DOCTYPE tokens *)
+Definition stoken_eqb_mod_doctype (a b : stoken) : bool :=
+  match a, b with
+  | KDoctype _, KDoctype _ => true
+  | _, _ => stoken_eqb a b
+  end.
+
+Definition same_structure_mod_doctype (o o' : bytes) : bool :=
+  list_eqb stoken_eqb_mod_doctype (fst (skel o)) (fst (skel o')) && hstate_eqb (snd (skel o)) (snd (skel o')).
+
 (* ---- D1: a defined template that is the target of at least two template calls and whose body
    changes the context (a context-opening or context-closing helper): the engine memoises the
    callee's INPUT context as its output context, so the second call site continues in the wrong
